@@ -35,6 +35,15 @@ class Loopback:
                 self.drop_next -= 1
                 request.transport.close()        # the server went away after reading the request
                 return web.Response()
+            if request.path.endswith("/trading-pairs-info/"):
+                return web.json_response([{"name": "BTC/USD", "url_symbol": "btcusd", "base_decimals": 8,
+                                           "counter_decimals": 2, "minimum_order": "10.0 USD", "trading": "Enabled"},
+                                          {"name": "ETH/USD", "url_symbol": "ethusd", "base_decimals": 8,
+                                           "counter_decimals": 2, "minimum_order": "10.0 USD", "trading": "Enabled"}])
+            if request.path.endswith("/exchangeInfo"):
+                return web.json_response({"symbols": [{"symbol": "BTCUSDT", "permissions": ["SPOT", "MARGIN"], "filters": [
+                    {"filterType": "PRICE_FILTER", "tickSize": "0.01000000"},
+                    {"filterType": "LOT_SIZE", "stepSize": "0.00001000"}]}]})
             if request.path.endswith("/openOrders") or request.path.endswith("/myTrades") or \
                     "/open_orders/" in request.path or "/account_balances/" == request.path[-18:]:
                 return web.json_response([])
